@@ -66,6 +66,7 @@ type sink struct {
 	dgs    [][]byte    // udp: datagrams in arrival order
 	limit  int64       // midline: stop reading the current connection after this many octets (0 = no limit)
 	resets int         // mid-line resets performed
+	stall  bool        // the sink has stopped reading (back-pressure); connections stay open
 }
 
 func newSink(proto string) (*sink, error) {
@@ -126,6 +127,11 @@ func (s *sink) open(port int) error {
 				b := make([]byte, 65536)
 				var total int64
 				for {
+					s.mu.Lock()
+					for s.stall && !sc.closed {
+						s.cond.Wait()
+					}
+					s.mu.Unlock()
 					n, err := c.Read(b)
 					if n > 0 {
 						s.mu.Lock()
@@ -238,11 +244,20 @@ func (s *sink) waitCount(n int, d time.Duration) {
 	}
 }
 
+func (s *sink) setStall(v bool) {
+	s.mu.Lock()
+	s.stall = v
+	s.cond.Broadcast()
+	s.mu.Unlock()
+}
+
 func (s *sink) closeCurrent(rst bool) {
 	s.mu.Lock()
 	var c net.Conn
 	if n := len(s.conns); n > 0 {
 		c = s.conns[n-1].c
+		s.conns[n-1].closed = true
+		s.cond.Broadcast()
 	}
 	s.mu.Unlock()
 	if c == nil {
@@ -329,14 +344,15 @@ func genMsg(g *mon.RNG, scn, k int, content string, maxLen int) []byte {
 }
 
 type result struct {
-	Kind, What string
-	Inconcl    string
-	Handed     int
-	Delivered  int
-	Lost       int
-	MaxGap     int
-	Conns      int
-	ErrCount   uint64
+	Stalls, StallsThatBlockedAWrite int
+	Kind, What                      string
+	Inconcl                         string
+	Handed                          int
+	Delivered                       int
+	Lost                            int
+	MaxGap                          int
+	Conns                           int
+	ErrCount                        uint64
 }
 
 type witness struct {
@@ -457,6 +473,50 @@ func runScenario(sc scenario, dir string) (res result, wit witness) {
 				if !s.waitResets(nres+1, 20*time.Second) {
 					res.Inconcl = "the sink never got to reset the connection mid-line"
 					return
+				}
+			case "stall":
+				// back-pressure: the sink stops reading, the producer's socket buffers fill until a write blocks in
+				// the middle of a message; only then is the connection reset. Nothing handed over during the stall is
+				// judged; what arrives afterwards must still be whole handed-over messages.
+				s.setStall(true)
+				blocked := false
+				var pending chan bool
+				for k := 0; k < 600 && !blocked; k++ {
+					fill := genMsg(g, sc.ID, len(all), "plain", maxLen)
+					fill = append(fill[:len(fill)-2], bytes.Repeat([]byte("y"), 60000)...)
+					fill = append(fill, '"', '}')
+					all = append(all, handed{K: len(all), Judged: false, J: -1, Msg: fill})
+					pending = make(chan bool, 1)
+					go func(m []byte, done chan bool) {
+						select {
+						case ch <- m:
+							done <- true
+						case <-time.After(60 * time.Second):
+							done <- false
+						}
+					}(fill, pending)
+					select {
+					case ok := <-pending:
+						pending = nil
+						if !ok {
+							res.Inconcl = "producer stopped taking messages during a stall"
+							return
+						}
+					case <-time.After(250 * time.Millisecond):
+						blocked = true // the producer sits in a write (or the hand-over before it): buffers are full
+					}
+				}
+				s.closeCurrent(true)
+				s.setStall(false)
+				if pending != nil {
+					if ok := <-pending; !ok {
+						res.Inconcl = "producer never came back after the stalled connection was reset"
+						return
+					}
+				}
+				res.Stalls++
+				if blocked {
+					res.StallsThatBlockedAWrite++
 				}
 			case "down":
 				sinkUp = false
@@ -634,7 +694,7 @@ func scenarios(seed int64, thorough bool) []scenario {
 	if thorough {
 		pos = []int{0, 1, 2, 3, 4, 5, 8, 17, 40}
 	}
-	for _, kind := range []string{"close", "rst", "midline"} {
+	for _, kind := range []string{"close", "rst", "midline", "stall"} {
 		for _, at := range pos {
 			for _, r := range retries {
 				add(scenario{Proto: "tcp", Retry: r, N: at + 25, Content: "percent", Faults: []fault{{After: at, Kind: kind}}})
@@ -661,7 +721,7 @@ func scenarios(seed int64, thorough bool) []scenario {
 		at := 0
 		for k := g.Range(2, 5); k > 0; k-- {
 			at += g.Range(12, 30) // far enough apart for delivery to have resumed
-			f := fault{After: at, Kind: []string{"close", "rst", "down", "midline"}[g.Intn(4)]}
+			f := fault{After: at, Kind: []string{"close", "rst", "down", "midline", "stall"}[g.Intn(5)]}
 			if f.Kind == "down" {
 				f.Down = downs[g.Intn(4)]
 				at += f.Down
@@ -703,7 +763,7 @@ func main() {
 		run.Finish()
 	}
 	scs := scenarios(run.Seed, run.Thorough())
-	var msgs, faults, lost, delivered int64
+	var msgs, faults, lost, delivered, stalls, stallsBlocked int64
 	var maxGap int64
 	var mu sync.Mutex
 	kinds := map[string]int{}
@@ -720,6 +780,8 @@ func main() {
 			atomic.AddInt64(&msgs, int64(r.Handed))
 			atomic.AddInt64(&faults, int64(len(sc.Faults)))
 			atomic.AddInt64(&lost, int64(r.Lost))
+			atomic.AddInt64(&stalls, int64(r.Stalls))
+			atomic.AddInt64(&stallsBlocked, int64(r.StallsThatBlockedAWrite))
 			atomic.AddInt64(&delivered, int64(r.Delivered))
 			mu.Lock()
 			if int64(r.MaxGap) > maxGap {
@@ -763,8 +825,10 @@ func main() {
 	run.Set("longest_run_of_lost_judged_messages", maxGap)
 	run.Set("faults_injected", faults)
 	run.Set("faults_by_kind", kinds)
+	run.Set("stalls_injected", stalls)
+	run.Set("stalls_in_which_a_producer_write_blocked_mid_message", stallsBlocked)
 	run.Set("backends_not_reached", []string{"kafka (sarama)", "kafka (segmentio)", "nsq: need brokers that do not exist in this sandbox"})
-	run.SetRule("real producer.NewProducer('rawSocket') + config file + Run() against an in-process sink. Fault enumeration: {graceful close, RST, mid-line reset, listener+connection down} × fault position {before first, after message 1,2,5,17} × downtime {0,1,5,50 hand-overs} × retry-max {0,1,2,5}, tcp and udp, plus seeded sequences of 2-5 faults; contents with every % verb, %%, trailing %, binary octets, up to 256 KiB. Oracle over the sink's byte streams (connections in accept order): every complete line is byte-identical to a handed-over message plus newline, no duplicates, no inversions, every message handed over while the sink had been reachable for more than 4 messages is present, delivery resumes after every fault. distinct = scenario descriptor")
+	run.SetRule("real producer.NewProducer('rawSocket') + config file + Run() against an in-process sink. Fault enumeration: {graceful close, RST, mid-line reset, stall (sink stops reading until a producer write blocks mid-message, then RST), listener+connection down} × fault position {before first, after message 1,2,5,17} × downtime {0,1,5,50 hand-overs} × retry-max {0,1,2,5}, tcp and udp, plus seeded sequences of 2-5 faults; contents with every % verb, %%, trailing %, binary octets, up to 256 KiB. Oracle over the sink's byte streams (connections in accept order): every complete line is byte-identical to a handed-over message plus newline, no duplicates, no inversions, every message handed over while the sink had been reachable for more than 4 messages is present, delivery resumes after every fault. distinct = scenario descriptor")
 	run.Assume("bounded gap = at most 4 judged messages after the sink is reachable again (derivation in DESIGN.md C14)")
 	run.Assume("loopback TCP delivers what the kernel accepted within 20 s (watchdog for 'never arrived')")
 	run.Finish()
